@@ -98,4 +98,19 @@ RecordsOk(inst, rec, want, allow, after) ==
     THEN IF want.k = "pin" THEN {want.v} ELSE {after}                     \* what was installed (nothing if it did not appear)
   ELSE IF Foreign(inst, rec) /\ rec # NoVer THEN {rec, NoVer}             \* stale entry of a now-foreign package: may be dropped
   ELSE {rec}
+
+\* ---- persistence of the record ("persisted in the config entry")
+\* The record lives in the config entry; Home Assistant keeps the entry in memory and writes it to storage
+\* (with a delay) when it is told that the entry changed.  A run that changes the record must hand the new
+\* record to HA; after HA has written what is pending, storage holds the record; after a restart the entry
+\* (and so the record the next run starts from) is what storage held.
+SameVer(a, b) == IF a = NoVer \/ b = NoVer THEN a = b ELSE VEq(a, b)
+RecordWrite(rec, rec2, pending) == pending \/ rec2 # rec          \* a write is pending after the run
+StoredAtStop(rec, disk, pending) == IF pending THEN rec ELSE disk    \* HA's final write
+Reloaded(disk) == disk                                               \* the entry after a restart
+\* storage after the run (everything pending written) against the record in the entry, on the packages S
+PersistOk(rec2, disk2, S) == \A p \in S : SameVer(rec2[p], disk2[p])
+\* the record a run starts from (read from the entry, after a restart: from the re-created entry) against
+\* the record the previous run left
+CarryOk(prev2, loaded, S) == \A p \in S : SameVer(prev2[p], loaded[p])
 =============================================================================
